@@ -47,15 +47,17 @@ def ref_lpv(ref, q):
     return None
 
 
-def run_history(col, cname, suffix_aware, hist, queries):
+def run_history(col, cname, suffix_aware, hist, queries, same_value=False):
     cls, stems_fn, _ = CLASSES[cname]
     fn = "ural.lru.trie.%s" % cname
     trie = cls(suffix_aware=suffix_aware)
     ref = {}
     H = [list(h) for h in hist]
     ctx = {"class": cname, "suffix_aware": suffix_aware, "history": H}
+    if same_value:
+        ctx["values"] = "every entry stores the same value 'v' (entries are told apart by their keys, not by what they hold)"
     for i, (op, u) in enumerate(hist):
-        value = i + 1
+        value = "v" if same_value else i + 1
         r0 = call(stems_fn, u, suffix_aware=suffix_aware)
         if r0[0] != "ok":
             return  # the tokenizer rejects the URL (ValueError of urlsplit ...): outside this property
@@ -158,6 +160,8 @@ def shard(job):
             ref = run_history(col, cname, sa, h, queries)
             if ref is not None:
                 col.nontriv((cname, sa, tuple(sorted(ref))))
+            if len(h) >= 2:
+                run_history(col, cname, sa, h, queries[:6], same_value=True)
     return col.partial()
 
 
@@ -219,7 +223,7 @@ def main():
         if "set_lru" in inp:
             raw_history(col, inp["class"], inp["suffix_aware"], inp["set_lru"], [inp["query"]] if "query" in inp else CORE)
         elif "history" in inp:
-            run_history(col, inp["class"], inp["suffix_aware"], [tuple(h) for h in inp["history"]], [inp["query"]] if "query" in inp else CORE)
+            run_history(col, inp["class"], inp["suffix_aware"], [tuple(h) for h in inp["history"]], [inp["query"]] if "query" in inp else CORE, same_value="values" in inp)
         else:
             variant_collisions(col, inp["class"], inp["suffix_aware"], [inp["stored"], inp["query"]])
         col.rule = "replay"
